@@ -2,6 +2,8 @@
 // std::unique_lock / std::lock_guard / std::thread in the repository's translation units by cooperative versions driven by a
 // deterministic scheduler. Exactly one thread runs at a time; the running thread gives up control only at scheduling points:
 // before every mutex acquisition, at every condition wait (it blocks), at every hook point, at join and at thread exit.
+// Spurious wake-ups: when `spur_budget` > 0 the scheduler occasionally makes a thread that sleeps in a condition wait runnable
+// without any notification (std::condition_variable::wait is allowed to do that; the code must re-test its predicate).
 // The repository's sources are not edited.
 #pragma once
 #include <mutex>
@@ -22,19 +24,20 @@
 namespace vs {
 struct Sched {
   enum St { RUN, BLK, DONE };
-  struct T { St st; const void *on; };
+  struct T { St st; const void *on; bool cvwait = false; };
   std::mutex m; std::condition_variable cv;                 // the baton (real primitives, used only here)
   std::vector<T> th; int cur = -1;
   uint64_t rng = 1; int strategy = 0;                        // 0: uniform random, 1: random priorities with change points (PCT-like)
   std::vector<int> prio; std::vector<long> change; long stepno = 0;
   std::vector<int> script; size_t script_pos = 0;            // optional scripted prefix of choices
+  int spur_budget = 0; long spurious = 0;                    // spurious wake-ups still to inject into condition waits / injected so far
   std::string trace;
   void (*on_switch)(int self) = nullptr;                     // called by the running thread just before it gives up control
   void (*on_deadlock)(const std::string &trace) = nullptr;
   Sched() { th.reserve(256); prio.reserve(256); }
   static Sched &I() { static Sched s; return s; }
   static int &self() { static thread_local int id = -1; return id; }
-  void ensure_main() { if (self() < 0) { self() = (int)th.size(); th.push_back({RUN, nullptr}); prio.push_back(1000); cur = self(); } }
+  void ensure_main() { if (self() < 0) { self() = (int)th.size(); th.push_back({RUN, nullptr, false}); prio.push_back(1000); cur = self(); } }
   uint64_t next() { rng ^= rng << 13; rng ^= rng >> 7; rng ^= rng << 17; return rng >> 11; }
   int choose(const std::vector<int> &r) {
     if (script_pos < script.size()) { int want = script[script_pos++]; for (int x : r) if (x == want) return x; }
@@ -49,6 +52,11 @@ struct Sched {
     if (on_switch) on_switch(self());
     std::unique_lock<std::mutex> lk(m);
     stepno++;
+    // a condition wait may return without a notification: now and then wake one thread that sleeps in a condition wait
+    if (spur_budget > 0 && next() % 6 == 0) {
+      std::vector<int> w; for (size_t i = 0; i < th.size(); i++) if (th[i].st == BLK && th[i].cvwait) w.push_back((int)i);
+      if (!w.empty()) { int x = w[next() % w.size()]; th[x].st = RUN; th[x].on = nullptr; th[x].cvwait = false; spur_budget--; spurious++; }
+    }
     std::vector<int> r; for (size_t i = 0; i < th.size(); i++) if (th[i].st == RUN) r.push_back((int)i);
     if (r.empty()) {
       bool alldone = true; for (auto &t : th) if (t.st != DONE) alldone = false;
@@ -61,27 +69,28 @@ struct Sched {
     int me = self(); cv.wait(lk, [&] { return cur == me; });
   }
   void point() { ensure_main(); switch_away(false); }
-  void block_on(const void *o) { ensure_main(); th[self()].st = BLK; th[self()].on = o; switch_away(false); }
-  void wake_all(const void *o) { for (auto &t : th) if (t.st == BLK && t.on == o) { t.st = RUN; t.on = nullptr; } }
+  void block_on(const void *o, bool cv = false) { ensure_main(); th[self()].st = BLK; th[self()].on = o; th[self()].cvwait = cv; switch_away(false); }
+  void wake_all(const void *o) { for (auto &t : th) if (t.st == BLK && t.on == o) { t.st = RUN; t.on = nullptr; t.cvwait = false; } }
 };
 // A further scheduling point follows every acquisition (the owner may be descheduled while it holds the mutex: threads that need
 // the mutex block, code that wrongly touches the protected state WITHOUT the mutex gets to run), and one precedes the release
 // inside a condition wait (the window between testing the predicate and blocking, where a notify sent without the mutex is lost).
 struct vmutex { bool locked = false;
   void lock() { auto &S = Sched::I(); S.point(); while (locked) S.block_on(this); locked = true; S.point(); }
-  void unlock() { locked = false; Sched::I().wake_all(this); } };
+  void unlock_raw() { locked = false; Sched::I().wake_all(this); }
+  void unlock() { unlock_raw(); Sched::I().point(); } };   // a point follows every release (publish-then-recheck windows), except the release inside a condition wait, which is atomic with blocking
 template <class M> struct vunique_lock { M *m; bool owns;
   explicit vunique_lock(M &mm) : m(&mm), owns(true) { m->lock(); } ~vunique_lock() { if (owns) m->unlock(); }
-  void unlock() { m->unlock(); owns = false; } void lock() { m->lock(); owns = true; } };
+  void unlock() { m->unlock(); owns = false; } void unlock_raw() { m->unlock_raw(); owns = false; } void lock() { m->lock(); owns = true; } };
 template <class M> struct vlock_guard { M &m; explicit vlock_guard(M &mm) : m(mm) { m.lock(); } ~vlock_guard() { m.unlock(); } };
 struct vcondvar {
-  template <class L> void wait(L &l) { Sched::I().point(); l.unlock(); Sched::I().block_on(this); l.lock(); }
+  template <class L> void wait(L &l) { Sched::I().point(); l.unlock_raw(); Sched::I().block_on(this, true); l.lock(); }
   template <class L, class P> void wait(L &l, P p) { while (!p()) wait(l); }
   void notify_all() { Sched::I().wake_all(this); } void notify_one() { Sched::I().wake_all(this); } };
 struct vthread { std::thread t; int id = -1; vthread() {}
   template <class F, class... A> explicit vthread(F &&f, A &&...a) {
     auto &S = Sched::I(); S.ensure_main();
-    { std::unique_lock<std::mutex> lk(S.m); id = (int)S.th.size(); S.th.push_back({Sched::RUN, nullptr}); S.prio.push_back((int)(S.next() % 1000)); }
+    { std::unique_lock<std::mutex> lk(S.m); id = (int)S.th.size(); S.th.push_back({Sched::RUN, nullptr, false}); S.prio.push_back((int)(S.next() % 1000)); }
     int myid = id;
     t = std::thread([myid](auto fn, auto... args) {
       auto &S = Sched::I(); Sched::self() = myid;
